@@ -56,6 +56,14 @@ def definitions(tier: str, seed: int, want: dict[str, int]) -> list[dict]:
             ast, kind = gen.random_edge(rng, gen.EDGE_KINDS[(i // 2) % len(gen.EDGE_KINDS)])
         defs.append({"name": f"edge{i}", "kind": "edge", "ast": ast,
                      "tags": sorted(gen.tags_of(ast) | {"F_edge"})})
+    for i in range(want.get("start-block", 0)):
+        ast = gen.random_start_block(rng)
+        defs.append({"name": f"sblk{i}", "kind": "start-block", "ast": ast,
+                     "tags": sorted(gen.tags_of(ast) | {"beyond-F", "start-block"})})
+    if want.get("start-block", 0):
+        for i, ast in enumerate(gen.break_xor_start_block_family()):
+            defs.append({"name": f"bxsb{i}", "kind": "start-block", "ast": ast,
+                         "tags": sorted(gen.tags_of(ast) | {"beyond-F", "start-block"})})
     for i in range(want.get("same-end", 0)):
         ast = gen.random_same_end(rng)
         defs.append({"name": f"same{i}", "kind": "same-end", "ast": ast,
@@ -71,7 +79,7 @@ def complete_jobs(ast: list, k: int, cap: int) -> list[tuple] | None:
 
 
 def s1_cases(defs: list[dict], seed: int, k_list=(2,), cap: int = 300, schedules: int = 2,
-             **flags: Any) -> tuple[list[dict], dict]:
+             corpus_schedules: int | None = None, **flags: Any) -> tuple[list[dict], dict]:
     """Complete-sample cases.  Returns (cases, stats)."""
     cases = []
     stats = {"defs": 0, "skipped_too_many_jobs": 0}
@@ -84,7 +92,8 @@ def s1_cases(defs: list[dict], seed: int, k_list=(2,), cap: int = 300, schedules
             if k > 2 and len(jobs) == len(complete_jobs(d["ast"], 2, cap) or []):
                 continue  # no loop: k=3 adds nothing
             stats["defs"] += 1
-            for s in range(schedules):
+            nsched = corpus_schedules if (corpus_schedules and d["kind"] == "corpus") else schedules
+            for s in range(nsched):
                 cases.append({
                     "name": d["name"], "kind": d["kind"], "src": ast_json(d["ast"]),
                     "tags": d["tags"] + ["S1"], "stratum": "S1", "k": k,
